@@ -222,6 +222,13 @@ func genC07Records(r *vk.RNG, n int, coloured bool) *Dataset {
 		}
 		d.Recs = append(d.Recs, Rec{TS: logT0 + int64(i+1)*1e9 + int64(r.Intn(1e6)), Line: line, Labels: labels})
 	}
+	if r.Chance(1, 3) {
+		// all records from one source: they carry the same labels (and, in the storage, share one
+		// resource), so a stage that rewrites a label must do so for each record afresh
+		for i := 1; i < len(d.Recs); i++ {
+			d.Recs[i].Labels = copyMap(d.Recs[0].Labels)
+		}
+	}
 	return d
 }
 
